@@ -307,9 +307,9 @@ Proof.
   destruct n; [contradiction|reflexivity].
 Qed.
 
-Lemma check_expr_wrapped e : wrapped e -> check_expr e = e /\ exists e', e = ch_lp :: e'.
+Lemma check_expr_wrapped e : wrapped e -> Schema.may_wrap e = e -> check_expr e = e /\ exists e', e = ch_lp :: e'.
 Proof.
-  intros (b & p & -> & _). split; [|eauto].
+  intros (b & p & -> & _) Hm. split; [|eauto].
   unfold check_expr, trim_space.
   assert (skip_while is_go_space (ch_lp :: b ++ [ch_rp]) = ch_lp :: b ++ [ch_rp]) as -> by reflexivity.
   assert (rev (ch_lp :: b ++ [ch_rp]) = ch_rp :: rev b ++ [ch_lp]) as ->.
@@ -317,14 +317,11 @@ Proof.
   assert (skip_while is_go_space (ch_rp :: rev b ++ [ch_lp]) = ch_rp :: rev b ++ [ch_lp]) as -> by reflexivity.
   assert (rev (ch_rp :: rev b ++ [ch_lp]) = ch_lp :: b ++ [ch_rp]) as ->.
   { simpl. rewrite rev_app_distr, rev_involutive. reflexivity. }
-  unfold starts_lp, ends_rp.
-  assert (rev (ch_lp :: b ++ [ch_rp]) = ch_rp :: rev b ++ [ch_lp]) as ->.
-  { simpl. rewrite rev_app_distr. reflexivity. }
-  reflexivity.
+  exact Hm.
 Qed.
 
 Definition check_ok (k : option bytes * bytes) : Prop :=
-  (match fst k with Some n => name_ok n | None => True end) /\ wrapped (snd k).
+  (match fst k with Some n => name_ok n | None => True end) /\ wrapped (snd k) /\ Schema.may_wrap (snd k) = snd k.
 
 Lemma match_kw_printed e' tail :
   match_check_kw (K_CHECK ++ ch_sp :: (ch_lp :: e') ++ tail) = Some ((ch_lp :: e') ++ tail).
@@ -333,8 +330,8 @@ Proof. unfold match_check_kw. rewrite lit_ci_self. reflexivity. Qed.
 Lemma match_at_printed k tail : check_ok k ->
   match_check_at (print_check k ++ tail) = Some (fst k, snd k ++ tail).
 Proof.
-  destruct k as [[n|] e]; intros [Hn He]; simpl in Hn, He;
-    destruct (check_expr_wrapped e He) as (Hce & e' & He'); unfold print_check; simpl fst; simpl snd; rewrite Hce.
+  destruct k as [[n|] e]; intros [Hn [He Hmw]]; simpl in Hn, He, Hmw;
+    destruct (check_expr_wrapped e He Hmw) as (Hce & e' & He'); unfold print_check; simpl fst; simpl snd; rewrite Hce.
   - unfold match_check_at, match_named_check.
     repeat rewrite <- app_assoc. rewrite lit_ci_self.
     change ([ch_sp] ++ bt_ident n ++ [ch_sp] ++ K_CHECK ++ [ch_sp] ++ e ++ tail)
@@ -369,7 +366,7 @@ Proof.
     destruct (print_check k ++ tail) eqn:E.
     - pose proof (match_at_printed k tail Hk) as H. rewrite E in H. discriminate.
     - cbn [find_check]. rewrite <- E. rewrite (match_at_printed k tail Hk). reflexivity. }
-  rewrite Hf. destruct Hk as [_ Hw].
+  rewrite Hf. destruct Hk as [_ [Hw _]].
   rewrite (scan_expr_wrapped _ tail Hw).
   rewrite skipn_app, skipn_all, Nat.sub_diag. simpl skipn. cbn [app].
   destruct (x ++ sep ++ print_check k ++ tail) eqn:E.
@@ -426,8 +423,12 @@ Proof. vm_compute. reflexivity. Qed.
 (** the planner's own CREATE TABLE with generated columns cx and c *)
 Definition w_gen_text : bytes :=
   B "CREATE TABLE `t` (`a` int NULL, `cx` int NULL AS (a + 1) STORED, `c` int NULL AS (a * 2) STORED)".
-Lemma w_gen_prefix : set_gen_expr (B "c") w_gen_text = GenOk (B "(a + 1)") /\
-                     set_gen_expr (B "cx") w_gen_text = GenOk (B "(a + 1)").
+Lemma w_gen_prefix : set_gen_expr_old (B "c") w_gen_text = GenOk (B "(a + 1)") /\
+                     set_gen_expr_old (B "cx") w_gen_text = GenOk (B "(a + 1)").
+Proof. vm_compute. split; reflexivity. Qed.
+(** since the fix (white space after the name) each column gets its own expression *)
+Lemma w_gen_prefix_fixed : set_gen_expr (B "c") w_gen_text = GenOk (B "(a * 2)") /\
+                           set_gen_expr (B "cx") w_gen_text = GenOk (B "(a + 1)").
 Proof. vm_compute. split; reflexivity. Qed.
 
 (** a string holding AS ( inside a generated expression (planner's text) *)
@@ -439,12 +440,22 @@ Proof. vm_compute. reflexivity. Qed.
 Definition w_auto_bracket : bytes := B "CREATE TABLE t ([id] integer PRIMARY KEY AUTOINCREMENT, b int)".
 Definition w_auto_phantom : bytes := B "CREATE TABLE t (id integer PRIMARY KEY NOT NULL CHECK (autoincrement_x > 0), autoincrement_x int)".
 Lemma w_autoinc : autoinc w_auto_bracket [B "id"; B "b"] [B "id"] = AutoNone /\
-                  autoinc w_auto_phantom [B "id"; B "autoincrement_x"] [B "id"] = AutoOk (B "id").
+                  autoinc_old w_auto_phantom [B "id"; B "autoincrement_x"] [B "id"] = AutoOk (B "id").
+Proof. vm_compute. split; reflexivity. Qed.
+(** since the fix of the tail of reAutoinc the letters later in the definition are not taken for the keyword;
+    the grammar's own forms are: PRIMARY KEY DESC ON CONFLICT REPLACE AUTOINCREMENT *)
+Definition w_auto_full : bytes := B "CREATE TABLE t (id integer NOT NULL PRIMARY KEY desc ON CONFLICT replace AUTOINCREMENT, b int)".
+Lemma w_autoinc_fixed : autoinc w_auto_phantom [B "id"; B "autoincrement_x"] [B "id"] = AutoNone /\
+                        autoinc w_auto_full [B "id"; B "b"] [B "id"] = AutoOk (B "id").
 Proof. vm_compute. split; reflexivity. Qed.
 
 (** partial index predicate *)
-Lemma w_where : index_predicate (B "CREATE INDEX `ix_WHERE_y` ON `t` (`a`) WHERE a > 0") = Some (B "_y` ON `t` (`a`) WHERE a > 0") /\
-                index_predicate (B "CREATE INDEX i on t (a) where a > 0") = None.
+Lemma w_where : index_predicate_old (B "CREATE INDEX `ix_WHERE_y` ON `t` (`a`) WHERE a > 0") = Some (B "_y` ON `t` (`a`) WHERE a > 0") /\
+                index_predicate_old (B "CREATE INDEX i on t (a) where a > 0") = None.
+Proof. vm_compute. split; reflexivity. Qed.
+(** since the fix (the keyword is looked for after a closing parenthesis, in any case) *)
+Lemma w_where_fixed : index_predicate (B "CREATE INDEX `ix_WHERE_y` ON `t` (`a`) WHERE a > 0") = Some (B "a > 0") /\
+                      index_predicate (B "CREATE INDEX i on t (a) where a > 0") = Some (B "a > 0").
 Proof. vm_compute. split; reflexivity. Qed.
 
 (** foreign-key names: bracket quoting; two keys of the same shape *)
@@ -528,10 +539,9 @@ Proof.
     + rewrite (index_of_miss _ _ _ E). apply IH. cbn [occurs_cs] in Hp. destruct (lit_cs K_WHERE (b :: pre)); [discriminate|exact Hp].
 Qed.
 
-Theorem index_predicate_printed pre c p : occurs_cs K_WHERE pre = false -> ~ In c K_WHERE ->
-  index_predicate (pre ++ c :: K_WHERE ++ p) = Some (trim_space p).
-Proof. intros H1 H2. unfold index_predicate. rewrite index_of_where by assumption. reflexivity. Qed.
-
+Theorem index_predicate_old_printed pre c p : occurs_cs K_WHERE pre = false -> ~ In c K_WHERE ->
+  index_predicate_old (pre ++ c :: K_WHERE ++ p) = Some (trim_space p).
+Proof. intros H1 H2. unfold index_predicate_old. rewrite index_of_where by assumption. reflexivity. Qed.
 
 (** ** leftmost match: a generic finder *)
 Section Finder.
@@ -564,6 +574,8 @@ Lemma find_gen_first name s : find_gen name s = find_first _ (match_gen_at name)
 Proof. induction s as [|b s IH]; cbn [find_gen find_first]; [reflexivity|]. destruct (match_gen_at name (b :: s)); [reflexivity|exact IH]. Qed.
 Lemma find_autoinc_first s : find_autoinc s = find_first _ match_autoinc_at s.
 Proof. induction s as [|b s IH]; cbn [find_autoinc find_first]; [reflexivity|]. destruct (match_autoinc_at (b :: s)); [reflexivity|exact IH]. Qed.
+Lemma find_where_first s : find_where s = find_first _ where_at s.
+Proof. induction s as [|b s IH]; cbn [find_where find_first]; [reflexivity|]. destruct (where_at (b :: s)); [reflexivity|exact IH]. Qed.
 
 (** ** setGenExpr on a printed generated column *)
 Definition not_comma (c : N) : bool := negb (N.eqb c ch_comma).
@@ -641,30 +653,42 @@ Qed.
     [mid] (type, NULL / NOT NULL), AS, spaces, the wrapped expression [e]; if no match of the
     column's regexp starts before [c] and no further "AS (" follows in the same comma-free
     stretch, setGenExpr returns exactly [e]. *)
-Theorem set_gen_expr_printed name pre c sp1 mid w e rest :
-  name_ok name -> open_ch c = true -> forallb is_space sp1 = true ->
+Lemma space_not_quote c : is_space c = true -> is_quote c = false.
+Proof.
+  unfold is_space, is_quote. intro H.
+  repeat (apply orb_true_iff in H; destruct H as [H|H]); apply N.eqb_eq in H; subst; reflexivity.
+Qed.
+Lemma skip_quotes_bt_space s0 r : is_space s0 = true -> skip_while is_quote (ch_bt :: s0 :: r) = s0 :: r.
+Proof.
+  intro H. cbn [skip_while]. change (is_quote ch_bt) with true. cbn iota. rewrite (space_not_quote _ H). reflexivity.
+Qed.
+
+(** (since the fix of the regexp the text after the closing quote of the name starts with a white-space byte [s0]) *)
+Theorem set_gen_expr_printed name pre c sp1 s0 mid w e rest :
+  name_ok name -> open_ch c = true -> forallb is_space sp1 = true -> is_space s0 = true ->
   forallb not_comma mid = true -> forallb is_space w = true -> wrapped e ->
   last_as (tl e ++ rest) = None ->
   no_start_before _ (match_gen_at name)
-    (pre ++ c :: sp1 ++ bt_ident name ++ mid ++ K_AS ++ w ++ e ++ rest) (length pre) = true ->
-  set_gen_expr name (pre ++ c :: sp1 ++ bt_ident name ++ mid ++ K_AS ++ w ++ e ++ rest) = GenOk e.
+    (pre ++ c :: sp1 ++ bt_ident name ++ (s0 :: mid) ++ K_AS ++ w ++ e ++ rest) (length pre) = true ->
+  set_gen_expr name (pre ++ c :: sp1 ++ bt_ident name ++ (s0 :: mid) ++ K_AS ++ w ++ e ++ rest) = GenOk e.
 Proof.
-  intros Hn Hc Hs1 Hmid Hw He Hlast Hpre.
+  intros Hn Hc Hs1 Hs0 Hmid Hw He Hlast Hpre.
   destruct He as (b & p & -> & Hb). set (e := ch_lp :: b ++ [ch_rp]) in *.
   assert (wrapped e) as He by (exists b, p; auto).
   unfold set_gen_expr. destruct Hn as [Hne Hwd]. rewrite Hwd. cbn [negb orb].
   destruct name as [|n0 name'] eqn:En; [contradiction|]. rewrite <- En in *. cbn iota.
   rewrite find_gen_first, (find_first_skip _ _ _ _ Hpre).
-  assert (match_gen_at name (c :: sp1 ++ bt_ident name ++ mid ++ K_AS ++ w ++ e ++ rest) = Some (e ++ rest)) as Hm.
+  assert (match_gen_at name (c :: sp1 ++ bt_ident name ++ (s0 :: mid) ++ K_AS ++ w ++ e ++ rest) = Some (e ++ rest)) as Hm.
   { unfold match_gen_at. rewrite Hc. unfold bt_ident.
-    change (sp1 ++ (ch_bt :: name ++ [ch_bt]) ++ mid ++ K_AS ++ w ++ e ++ rest)
-      with (sp1 ++ ch_bt :: (name ++ [ch_bt]) ++ mid ++ K_AS ++ w ++ e ++ rest).
+    change (sp1 ++ (ch_bt :: name ++ [ch_bt]) ++ (s0 :: mid) ++ K_AS ++ w ++ e ++ rest)
+      with (sp1 ++ ch_bt :: (name ++ [ch_bt]) ++ (s0 :: mid) ++ K_AS ++ w ++ e ++ rest).
     rewrite skip_spaces_tail by (exact Hs1 || reflexivity).
     rewrite <- app_assoc. rewrite skip_quotes_name by (split; [rewrite En; discriminate|exact Hwd]).
     rewrite lit_cs_self.
-    change ([ch_bt] ++ mid ++ K_AS ++ w ++ e ++ rest) with ((ch_bt :: mid) ++ K_AS ++ w ++ (ch_lp :: b ++ [ch_rp]) ++ rest).
-    apply last_as_at; [simpl; rewrite Hmid; reflexivity|exact Hw|exact Hlast]. }
-  destruct (c :: sp1 ++ bt_ident name ++ mid ++ K_AS ++ w ++ e ++ rest) eqn:Efull; [discriminate|].
+    change ([ch_bt] ++ (s0 :: mid) ++ K_AS ++ w ++ e ++ rest) with (ch_bt :: s0 :: mid ++ K_AS ++ w ++ (ch_lp :: b ++ [ch_rp]) ++ rest).
+    rewrite (skip_quotes_bt_space s0 _ Hs0). rewrite Hs0.
+    apply last_as_at; [exact Hmid|exact Hw|exact Hlast]. }
+  destruct (c :: sp1 ++ bt_ident name ++ (s0 :: mid) ++ K_AS ++ w ++ e ++ rest) eqn:Efull; [discriminate|].
   cbn [find_first]. rewrite Hm. rewrite (scan_expr_wrapped e rest He).
   subst e. reflexivity.
 Qed.
@@ -679,8 +703,12 @@ Proof.
   change ([ch_sp] ++ K_KEY ++ [ch_sp] ++ K_AUTOINCREMENT ++ rest) with (ch_sp :: K_KEY ++ ch_sp :: K_AUTOINCREMENT ++ rest).
   cbn [plus_space]. change (is_space ch_sp) with true. cbn iota.
   change (skip_while is_space (K_KEY ++ ch_sp :: K_AUTOINCREMENT ++ rest)) with (K_KEY ++ ch_sp :: K_AUTOINCREMENT ++ rest).
-  rewrite lit_ci_self. change (is_space ch_sp) with true. cbn [andb].
-  destruct (K_AUTOINCREMENT ++ rest) eqn:E; [discriminate|]. cbn [has_ci]. rewrite <- E, lit_ci_self. reflexivity.
+  rewrite lit_ci_self.
+  assert (ends_autoinc (ch_sp :: K_AUTOINCREMENT ++ rest) = true) as He.
+  { unfold ends_autoinc. cbn [plus_space]. change (is_space ch_sp) with true. cbn iota.
+    change (skip_while is_space (K_AUTOINCREMENT ++ rest)) with (K_AUTOINCREMENT ++ rest).
+    rewrite lit_ci_self. reflexivity. }
+  unfold tail_from. rewrite He. reflexivity.
 Qed.
 
 Lemma has_pk_autoinc_prefix x s : forallb not_comma x = true -> pk_autoinc_at s = true -> has_pk_autoinc (x ++ s) = true.
@@ -731,4 +759,19 @@ Proof.
   assert (existsb (bytes_eqb name) cols = true) as ->.
   { apply existsb_exists. exists name. split; [exact Hin|apply bytes_eqb_refl]. }
   rewrite bytes_eqb_refl. reflexivity.
+Qed.
+
+(** ** the partial-index predicate since the fix of addIndexes (reIdxWhere): the statement is [pre], the
+    closing parenthesis of the parts, spaces, WHERE, a white-space byte and at least one more byte; if no
+    match of the regexp starts inside [pre], the predicate read back is everything after the keyword, trimmed *)
+Theorem index_predicate_printed pre w1 s0 c p :
+  forallb is_space w1 = true -> is_space s0 = true ->
+  no_start_before _ where_at (pre ++ ch_rp :: w1 ++ K_WHERE ++ s0 :: c :: p) (length pre) = true ->
+  index_predicate (pre ++ ch_rp :: w1 ++ K_WHERE ++ s0 :: c :: p) = Some (trim_space (s0 :: c :: p)).
+Proof.
+  intros Hw Hs0 Hpre. unfold index_predicate. rewrite find_where_first, (find_first_skip _ _ _ _ Hpre).
+  assert (where_at (ch_rp :: w1 ++ K_WHERE ++ s0 :: c :: p) = Some (s0 :: c :: p)) as Hm.
+  { unfold where_at. rewrite N.eqb_refl. rewrite skip_spaces_tail by (exact Hw || reflexivity).
+    rewrite lit_ci_self. rewrite Hs0. reflexivity. }
+  cbn [find_first]. rewrite Hm. reflexivity.
 Qed.
